@@ -45,6 +45,11 @@ theorem limits_constant (tbl : List IfaceRow) (b : Bus) (ev : Ev) : (step tbl b 
       removeRule := fun _ _ _ _ _ => rfl
       gcRules := fun b _ x _ => by unfold gcRules; split; · rfl
                                    split <;> rfl
+      installMonitor := fun _ _ _ => rfl
+      joinMonitors := fun b c x rules => by
+        show (gcRules b _).limits = _
+        unfold gcRules; split; · rfl
+        split <;> rfl
       clearRules := fun _ _ => rfl
       removeConn := fun _ _ => rfl
       connect := fun _ _ _ _ _ _ => rfl }
